@@ -1297,7 +1297,11 @@ impl<'a, 'b, W: Write> Serializer for &'a mut YamlSerializer<'b, W> {
                 let mut cap = StrCapture::default();
                 value.serialize(&mut cap)?;
                 let s = cap.finish()?;
-                self.pending_str_style = Some(StrStyle::Literal);
+                // A block scalar cannot stand inside a flow collection: there the wrapper only
+                // marks a string, which is written quoted as needed.
+                if self.in_flow == 0 {
+                    self.pending_str_style = Some(StrStyle::Literal);
+                }
                 return self.serialize_str(&s);
             }
             NAME_FOLD_STR => {
@@ -1305,7 +1309,7 @@ impl<'a, 'b, W: Write> Serializer for &'a mut YamlSerializer<'b, W> {
                 value.serialize(&mut cap)?;
                 let s = cap.finish()?;
                 let is_multiline = s.contains('\n');
-                if !is_multiline && s.len() < self.min_fold_chars {
+                if self.in_flow > 0 || (!is_multiline && s.len() < self.min_fold_chars) {
                     return self.serialize_str(&s);
                 }
                 self.pending_str_style = Some(StrStyle::Folded);
